@@ -3,10 +3,19 @@
 //! Case line (shared with ocaml/suites/c03.ml):
 //!   tstack <kind 0=draw_iter-only|1=native> <bb x y w h> <nad> <adapters, innermost first> <nops> <ops>
 //!     adapter:  C x y w h (clipped) | R x y w h (cropped) | T dx dy (translated) | V (color_converted)
-//!     op:       D n (x y c)*n | F x y w h L n c*n | F x y w h I c (endless repeat) | S x y w h c | K c
-//!   result:  BB <outermost bounding_box()> MAP <root pixel map sorted by (y,x)>
+//!     op:       D n (x y c)*n | F x y w h L n c*n | F x y w h G n a b (n colours (a*i+b) mod 251)
+//!               | F x y w h I c (endless repeat) | S x y w h c | K c
+//!   result:  BB <outermost bounding_box()> MAP <root pixel map after op 1> | <after op 2> | ...
+//!            (each map sorted by (y,x); the state of the innermost parent after EVERY operation)
 //!   tcalls: same input (kind ignored, native parent); result = the calls that reached the parent.
-//!   p_stack: same input; evaluates the property against a set-theoretic reference.
+//!   tcrop <w> <h> <crop x y w h> <stream>: the Cropped colour iterator through a clipped target.
+//!   p_stack: same input as tstack; evaluates the property against a set-theoretic reference after every op.
+//!
+//! How the stack is built (`go`): up to depth 3 the adapters are the concrete nested library types
+//! (`Clipped<Cropped<Translated<..>>>` in whatever order the case asks for, each created by calling the
+//! `DrawTargetExt` constructor on the already adapted target) and the operations are issued through the public
+//! `DrawTarget` methods of that concrete type; deeper stacks continue behind a type-erasing forwarder (`Dyn`).
+//! `p_chain` additionally runs literal method chains on temporaries (`t.translated(d).cropped(&r)...`).
 use crate::util::*;
 use embedded_graphics::{
     pixelcolor::{raw::RawU8, PixelColor},
@@ -182,6 +191,91 @@ pub fn apply<T: DrawTarget<Color = K>>(t: &mut T, op: &Op) -> Result<(), T::Erro
     }
 }
 
+// ---- statically typed stacks: the concrete nested adapter types, constructors called on the adapted target ----
+macro_rules! static_level {
+    ($name:ident, $next:ident) => {
+        fn $name<T: DrawTarget<Color = K>>(t: &mut T, ads: &[Ad], boxes: &mut Vec<Rectangle>, ops: &[Op])
+        where
+            T::Error: core::fmt::Debug,
+        {
+            match ads.split_first() {
+                None => {
+                    boxes.push(t.bounding_box());
+                    for op in ops {
+                        apply(t, op).unwrap();
+                    }
+                }
+                Some((Ad::Clip(r), rest)) => {
+                    boxes.push(t.bounding_box());
+                    let mut a = t.clipped(r);
+                    $next(&mut a, rest, boxes, ops)
+                }
+                Some((Ad::Crop(r), rest)) => {
+                    boxes.push(t.bounding_box());
+                    let mut a = t.cropped(r);
+                    $next(&mut a, rest, boxes, ops)
+                }
+                Some((Ad::Transl(p), rest)) => {
+                    boxes.push(t.bounding_box());
+                    let mut a = t.translated(*p);
+                    $next(&mut a, rest, boxes, ops)
+                }
+                Some((Ad::Conv, rest)) => {
+                    boxes.push(t.bounding_box());
+                    let mut a = t.color_converted::<K2>();
+                    let mut s = Relabel(&mut a);
+                    $next(&mut s, rest, boxes, ops)
+                }
+            }
+        }
+    };
+}
+/// beyond the static depth: continue behind the type-erasing forwarder
+fn go_dyn<T: DrawTarget<Color = K>>(t: &mut T, ads: &[Ad], boxes: &mut Vec<Rectangle>, ops: &[Op])
+where
+    T::Error: core::fmt::Debug,
+{
+    go(t, ads, boxes, &mut |d| {
+        for op in ops {
+            apply(d, op).unwrap();
+        }
+    })
+}
+static_level!(go_s2, go_dyn);
+static_level!(go_s1, go_s2);
+static_level!(go_s0, go_s1);
+
+/// Literal method chains on temporaries, as users write them (`display.translated(d).cropped(&r).clear(c)`):
+/// every operation builds the chain anew. Returns the equivalent adapter list (innermost first).
+pub const CHAINS: u32 = 8;
+pub fn chain_ads(v: u32, r: Rectangle, r2: Rectangle, d: Point) -> Vec<Ad> {
+    match v {
+        0 => vec![Ad::Transl(d), Ad::Crop(r)],
+        1 => vec![Ad::Crop(r), Ad::Transl(d)],
+        2 => vec![Ad::Clip(r), Ad::Transl(d), Ad::Clip(r2)],
+        3 => vec![Ad::Transl(d), Ad::Clip(r), Ad::Crop(r2)],
+        4 => vec![Ad::Clip(r), Ad::Conv],
+        5 => vec![Ad::Crop(r), Ad::Crop(r2), Ad::Clip(r)],
+        6 => vec![Ad::Conv, Ad::Transl(d), Ad::Crop(r), Ad::Conv],
+        _ => vec![Ad::Crop(r), Ad::Clip(r2), Ad::Transl(d), Ad::Transl(d)],
+    }
+}
+pub fn chain_apply<T: DrawTarget<Color = K>>(t: &mut T, v: u32, r: Rectangle, r2: Rectangle, d: Point, op: &Op)
+where
+    T::Error: core::fmt::Debug,
+{
+    match v {
+        0 => apply(&mut t.translated(d).cropped(&r), op).unwrap(),
+        1 => apply(&mut t.cropped(&r).translated(d), op).unwrap(),
+        2 => apply(&mut t.clipped(&r).translated(d).clipped(&r2), op).unwrap(),
+        3 => apply(&mut t.translated(d).clipped(&r).cropped(&r2), op).unwrap(),
+        4 => apply(&mut Relabel(&mut t.clipped(&r).color_converted::<K2>()), op).unwrap(),
+        5 => apply(&mut t.cropped(&r).cropped(&r2).clipped(&r), op).unwrap(),
+        6 => apply(&mut Relabel(&mut Relabel(&mut t.color_converted::<K2>()).translated(d).cropped(&r).color_converted::<K2>()), op).unwrap(),
+        _ => apply(&mut t.cropped(&r).clipped(&r2).translated(d).translated(d), op).unwrap(),
+    }
+}
+
 pub struct Case {
     pub kind: u32,
     pub bb: Rectangle,
@@ -224,6 +318,10 @@ pub fn parse(a: &[&str]) -> Case {
                         let n = us(nx());
                         Op::F(r, (0..n).map(|_| u(nx())).collect())
                     }
+                    "G" => {
+                        let (n, ga, gb) = (us(nx()), us(nx()), us(nx()));
+                        Op::F(r, (0..n).map(|i| ((ga * i + gb) % 251) as u32).collect())
+                    }
                     _ => Op::FRep(r, u(nx())),
                 }
             }
@@ -235,25 +333,43 @@ pub fn parse(a: &[&str]) -> Case {
     Case { kind, bb, ads, ops }
 }
 
-/// Runs the case on the real library; returns (root pixel map, boxes per level root first, call log if native).
-pub fn run_case(c: &Case) -> (BTreeMap<(i32, i32), u32>, Vec<Rectangle>, Vec<Call>) {
+pub type Map = BTreeMap<(i32, i32), u32>;
+
+/// Runs the case on the real library. The history is replayed once per prefix (fresh parent, fresh stack) so that
+/// the state of the innermost parent after EVERY operation is observed.
+/// Returns (root pixel map after each op, boxes per level root first, call log of the full history if native).
+pub fn run_case(c: &Case) -> (Vec<Map>, Vec<Rectangle>, Vec<Call>) {
+    let mut maps = Vec::new();
+    let mut boxes = Vec::new();
+    let mut log = Vec::new();
+    let n = c.ops.len();
+    for i in (if n == 0 { 0 } else { 1 })..=n {
+        boxes.clear();
+        if c.kind == 0 {
+            let mut t: IterTarget<K> = IterTarget::new(c.bb);
+            go_s0(&mut t, &c.ads, &mut boxes, &c.ops[..i]);
+            maps.push(t.map);
+        } else {
+            let mut t: NativeTarget<K> = NativeTarget::new(c.bb);
+            go_s0(&mut t, &c.ads, &mut boxes, &c.ops[..i]);
+            maps.push(t.map);
+            log = t.log;
+        }
+    }
+    (maps, boxes, log)
+}
+
+/// the same through the type-erased builder only (every level behind `Dyn`), final map only
+pub fn run_case_dyn(c: &Case) -> Map {
     let mut boxes = Vec::new();
     if c.kind == 0 {
         let mut t: IterTarget<K> = IterTarget::new(c.bb);
-        go(&mut t, &c.ads, &mut boxes, &mut |d| {
-            for op in &c.ops {
-                apply(d, op).unwrap();
-            }
-        });
-        (t.map, boxes, Vec::new())
+        go_dyn(&mut t, &c.ads, &mut boxes, &c.ops);
+        t.map
     } else {
         let mut t: NativeTarget<K> = NativeTarget::new(c.bb);
-        go(&mut t, &c.ads, &mut boxes, &mut |d| {
-            for op in &c.ops {
-                apply(d, op).unwrap();
-            }
-        });
-        (t.map, boxes, t.log)
+        go_dyn(&mut t, &c.ads, &mut boxes, &c.ops);
+        t.map
     }
 }
 
@@ -270,8 +386,8 @@ pub fn run(suite: &str, a: &[&str]) -> Option<String> {
     Some(match suite {
         "tstack" => {
             let c = parse(a);
-            let (map, boxes, _) = run_case(&c);
-            format!("BB {} MAP {}", src(*boxes.last().unwrap()), smap(&map))
+            let (maps, boxes, _) = run_case(&c);
+            format!("BB {} MAP {}", src(*boxes.last().unwrap()), maps.iter().map(smap).collect::<Vec<_>>().join(" | "))
         }
         "tcalls" => {
             let mut c = parse(a);
@@ -281,6 +397,7 @@ pub fn run(suite: &str, a: &[&str]) -> Option<String> {
         }
         "tcrop" => tcrop(a),
         "p_stack" => p_stack(&parse(a)),
+        "p_chain" => p_chain(a),
         _ => return None,
     })
 }
@@ -300,6 +417,9 @@ fn tcrop(a: &[&str]) -> String {
             let n = us(a[7]);
             let cs: Vec<u32> = (0..n).map(|i| u(a[8 + i])).collect();
             c.fill_contiguous(&area, cs.iter().map(|&c| K(c as u8))).unwrap();
+        } else if a[6] == "G" {
+            let (n, ga, gb) = (us(a[7]), us(a[8]), us(a[9]));
+            c.fill_contiguous(&area, (0..n).map(|i| K(((ga * i + gb) % 251) as u8))).unwrap();
         } else {
             c.fill_contiguous(&area, core::iter::repeat(K(u(a[7]) as u8))).unwrap();
         }
@@ -311,133 +431,218 @@ fn tcrop(a: &[&str]) -> String {
 }
 
 // ---- direct property search: set-theoretic reference, written without the library's geometry ----
-/// half-open box in i64; None = empty set
-type Bx = Option<(i64, i64, i64, i64)>;
-fn bx(r: &Rectangle) -> Bx {
-    let (x, y) = (r.top_left.x as i64, r.top_left.y as i64);
-    let (w, h) = (r.size.width as i64, r.size.height as i64);
-    if w == 0 || h == 0 {
-        None
-    } else {
-        Some((x, y, x + w, y + h))
-    }
+/// A rectangle as the documentation describes it: top left + extents, all in i64 (no library arithmetic).
+#[derive(Clone, Copy, PartialEq, Debug)]
+struct R64 {
+    x: i64,
+    y: i64,
+    w: i64,
+    h: i64,
 }
-fn bx_and(a: Bx, b: Bx) -> Bx {
-    let (a, b) = (a?, b?);
-    let r = (a.0.max(b.0), a.1.max(b.1), a.2.min(b.2), a.3.min(b.3));
-    if r.0 >= r.2 || r.1 >= r.3 {
-        None
-    } else {
-        Some(r)
-    }
+const ZERO: R64 = R64 { x: 0, y: 0, w: 0, h: 0 };
+fn r64(r: &Rectangle) -> R64 {
+    R64 { x: r.top_left.x as i64, y: r.top_left.y as i64, w: r.size.width as i64, h: r.size.height as i64 }
 }
-fn bx_has(a: Bx, x: i64, y: i64) -> bool {
-    match a {
-        Some(b) => x >= b.0 && x < b.2 && y >= b.1 && y < b.3,
-        None => false,
+impl R64 {
+    fn empty(&self) -> bool {
+        self.w == 0 || self.h == 0
     }
-}
-fn bx_shift(a: Bx, dx: i64, dy: i64) -> Bx {
-    a.map(|b| (b.0 + dx, b.1 + dy, b.2 + dx, b.3 + dy))
+    fn has(&self, x: i64, y: i64) -> bool {
+        !self.empty() && x >= self.x && x < self.x + self.w && y >= self.y && y < self.y + self.h
+    }
+    fn shift(&self, dx: i64, dy: i64) -> R64 {
+        R64 { x: self.x + dx, y: self.y + dy, ..*self }
+    }
+    /// `self.intersection(other)` as documented: the common points; a zero sized operand whose top left lies in
+    /// the other (non-empty) operand is returned unchanged; everything else without common points is the zero
+    /// rectangle at the origin.
+    fn isect(&self, o: &R64) -> R64 {
+        match (self.empty(), o.empty()) {
+            (false, false) => {
+                let (x0, y0) = (self.x.max(o.x), self.y.max(o.y));
+                let (x1, y1) = ((self.x + self.w).min(o.x + o.w), (self.y + self.h).min(o.y + o.h));
+                if x0 < x1 && y0 < y1 {
+                    R64 { x: x0, y: y0, w: x1 - x0, h: y1 - y0 }
+                } else {
+                    ZERO
+                }
+            }
+            (true, false) => {
+                if o.has(self.x, self.y) {
+                    *self
+                } else {
+                    ZERO
+                }
+            }
+            (false, true) => {
+                if self.has(o.x, o.y) {
+                    *o
+                } else {
+                    ZERO
+                }
+            }
+            (true, true) => ZERO,
+        }
+    }
 }
 
-fn p_stack(c: &Case) -> String {
-    let (map, boxes, _) = run_case(c);
-    // Reference: every level has a box (a point set in its own coordinates); the stack as a whole is one
-    // shift `off` (outermost coordinates -> root coordinates), a list of clip sets in root coordinates and
-    // a number of colour conversions.
-    let mut level_box = bx(&c.bb);
+/// The reference: the stack as one shift `off` (outermost coordinates -> root coordinates), a list of clip sets in
+/// root coordinates, a number of colour conversions, and the exact box every level must report.
+struct Reference {
+    off: (i64, i64),
+    clips: Vec<R64>,
+    nconv: u32,
+    level: R64,
+}
+fn reference(c: &Case, boxes: &[Rectangle]) -> Result<Reference, String> {
+    let mut level = r64(&c.bb);
     let mut off = (0i64, 0i64);
-    let mut clips: Vec<Bx> = vec![bx(&c.bb)];
+    let mut clips = vec![level];
     let mut nconv = 0;
     for (i, ad) in c.ads.iter().enumerate() {
-        if bx(&boxes[i]) != level_box {
-            return format!("FAIL level {} bounding_box {:?} is not the expected point set {:?}", i, boxes[i], level_box);
+        if r64(&boxes[i]) != level {
+            return Err(format!("FAIL level {} bounding_box {:?} is not the expected {:?}", i, boxes[i], level));
         }
         match ad {
             Ad::Clip(r) => {
-                level_box = bx_and(bx(r), level_box);
-                clips.push(bx_shift(level_box, off.0, off.1));
+                level = r64(r).isect(&level);
+                clips.push(level.shift(off.0, off.1));
             }
             Ad::Crop(r) => {
-                let s = bx_and(bx(r), level_box);
-                // documented: origin of the cropped target = top left of (area /\ parent box); for an
-                // empty intersection nothing is documented: follow the rectangle the library computes
-                let tl = match s {
-                    Some(b) => (b.0, b.1),
-                    None => {
-                        let t = r.intersection(&boxes[i]).top_left;
-                        (t.x as i64, t.y as i64)
-                    }
-                };
-                off = (off.0 + tl.0, off.1 + tl.1);
-                level_box = bx_shift(s, -tl.0, -tl.1);
+                let s = r64(r).isect(&level);
+                off = (off.0 + s.x, off.1 + s.y);
+                level = R64 { x: 0, y: 0, w: s.w, h: s.h };
             }
             Ad::Transl(d) => {
                 off = (off.0 + d.x as i64, off.1 + d.y as i64);
-                level_box = bx_shift(level_box, -(d.x as i64), -(d.y as i64));
+                level = level.shift(-(d.x as i64), -(d.y as i64));
             }
             Ad::Conv => nconv += 1,
         }
     }
-    let top = *boxes.last().unwrap();
-    if bx(&top) != level_box {
-        return format!("FAIL outermost bounding_box {:?} is not the expected point set {:?}", top, level_box);
+    let top = boxes[c.ads.len()];
+    if r64(&top) != level {
+        return Err(format!("FAIL outermost bounding_box {:?} is not the expected {:?}", top, level));
     }
-    if let (Some(Ad::Crop(_)), true) = (c.ads.last(), top.top_left != Point::zero()) {
-        return format!("FAIL cropped target does not start at the origin: {:?}", top);
-    }
-    let mut expect: BTreeMap<(i32, i32), u32> = BTreeMap::new();
+    Ok(Reference { off, clips, nconv, level })
+}
+
+fn expect_after(rf: &Reference, expect: &mut Map, op: &Op) {
     let mut put = |x: i64, y: i64, col: u32| {
-        let (rx, ry) = (x + off.0, y + off.1);
-        if clips.iter().all(|b| bx_has(*b, rx, ry)) {
+        let (rx, ry) = (x + rf.off.0, y + rf.off.1);
+        if rf.clips.iter().all(|b| b.has(rx, ry)) {
             let mut k = col;
-            for _ in 0..nconv {
+            for _ in 0..rf.nconv {
                 k = (k * 7 + 3) % 256;
             }
             expect.insert((ry as i32, rx as i32), k);
         }
     };
-    for op in &c.ops {
-        match op {
-            Op::D(ps) => {
-                for (p, col) in ps {
-                    put(p.x as i64, p.y as i64, *col)
-                }
+    match op {
+        Op::D(ps) => {
+            for (p, col) in ps {
+                put(p.x as i64, p.y as i64, *col)
             }
-            Op::F(r, cs) => {
-                let (w, h) = (r.size.width as i64, r.size.height as i64);
-                for j in 0..h {
-                    for i in 0..w {
-                        if let Some(col) = cs.get((j * w + i) as usize) {
-                            put(r.top_left.x as i64 + i, r.top_left.y as i64 + j, *col)
-                        }
-                    }
-                }
-            }
-            Op::FRep(r, col) | Op::S(r, col) => {
-                for j in 0..r.size.height as i64 {
-                    for i in 0..r.size.width as i64 {
+        }
+        Op::F(r, cs) => {
+            let (w, h) = (r.size.width as i64, r.size.height as i64);
+            for j in 0..h {
+                for i in 0..w {
+                    if let Some(col) = cs.get((j * w + i) as usize) {
                         put(r.top_left.x as i64 + i, r.top_left.y as i64 + j, *col)
                     }
                 }
             }
-            Op::K(col) => {
-                // clear = fill the target's own bounding box
-                if let Some(b) = level_box {
-                    for y in b.1..b.3 {
-                        for x in b.0..b.2 {
-                            put(x, y, *col)
-                        }
+        }
+        Op::FRep(r, col) | Op::S(r, col) => {
+            for j in 0..r.size.height as i64 {
+                for i in 0..r.size.width as i64 {
+                    put(r.top_left.x as i64 + i, r.top_left.y as i64 + j, *col)
+                }
+            }
+        }
+        Op::K(col) => {
+            // clear = fill the target's own bounding box
+            let b = rf.level;
+            if !b.empty() {
+                for y in b.y..b.y + b.h {
+                    for x in b.x..b.x + b.w {
+                        put(x, y, *col)
                     }
                 }
             }
         }
     }
-    if expect != map {
-        let diff = expect.iter().find(|(k, v)| map.get(k) != Some(v)).map(|(k, v)| format!("({},{}) expected {} got {:?}", k.1, k.0, v, map.get(k)))
-            .or_else(|| map.iter().find(|(k, _)| !expect.contains_key(k)).map(|(k, v)| format!("({},{}) unexpected {}", k.1, k.0, v)));
-        return format!("FAIL root pixel map differs from the reference: {}", diff.unwrap_or_default());
+}
+
+fn map_diff(expect: &Map, map: &Map) -> Option<String> {
+    if expect == map {
+        return None;
     }
-    format!("OK {}", map.len())
+    expect
+        .iter()
+        .find(|(k, v)| map.get(k) != Some(v))
+        .map(|(k, v)| format!("({},{}) expected {} got {:?}", k.1, k.0, v, map.get(k)))
+        .or_else(|| map.iter().find(|(k, _)| !expect.contains_key(k)).map(|(k, v)| format!("({},{}) unexpected {}", k.1, k.0, v)))
+}
+
+fn p_stack(c: &Case) -> String {
+    let (maps, boxes, _) = run_case(c);
+    let rf = match reference(c, &boxes) {
+        Ok(r) => r,
+        Err(e) => return e,
+    };
+    let mut expect: Map = BTreeMap::new();
+    for (i, op) in c.ops.iter().enumerate() {
+        expect_after(&rf, &mut expect, op);
+        if let Some(d) = map_diff(&expect, &maps[i]) {
+            return format!("FAIL after op {} the root pixel map differs from the reference: {}", i + 1, d);
+        }
+    }
+    // the same history through the type-erased builder (every level behind a forwarder) must agree
+    if let Some(last) = maps.last() {
+        if let Some(d) = map_diff(last, &run_case_dyn(c)) {
+            return format!("FAIL concrete nested adapter types and forwarded stack disagree: {}", d);
+        }
+    }
+    format!("OK {}", maps.last().map(|m| m.len()).unwrap_or(0))
+}
+
+///   p_chain <kind> <bb x y w h> <variant> <r x y w h> <r2 x y w h> <dx dy> <nops> <ops>
+/// literal constructor chains on temporaries, rebuilt for every operation, against the reference
+fn p_chain(a: &[&str]) -> String {
+    let kind = u(a[0]);
+    let bb = rc(a[1], a[2], a[3], a[4]);
+    let v = u(a[5]) % CHAINS;
+    let r = rc(a[6], a[7], a[8], a[9]);
+    let r2 = rc(a[10], a[11], a[12], a[13]);
+    let d = pt(a[14], a[15]);
+    // re-use the op parser: a case line with no adapters
+    let mut args: Vec<&str> = vec![a[0], a[1], a[2], a[3], a[4], "0"];
+    args.extend_from_slice(&a[16..]);
+    let mut c = parse(&args);
+    c.ads = chain_ads(v, r, r2, d);
+    // boxes of the equivalent stack (and its maps: p_stack's subject)
+    let (_, boxes, _) = run_case(&c);
+    let rf = match reference(&c, &boxes) {
+        Ok(r) => r,
+        Err(e) => return e,
+    };
+    let mut expect: Map = BTreeMap::new();
+    let mut t0: IterTarget<K> = IterTarget::new(bb);
+    let mut t1: NativeTarget<K> = NativeTarget::new(bb);
+    for (i, op) in c.ops.iter().enumerate() {
+        expect_after(&rf, &mut expect, op);
+        let map = if kind == 0 {
+            chain_apply(&mut t0, v, r, r2, d, op);
+            &t0.map
+        } else {
+            chain_apply(&mut t1, v, r, r2, d, op);
+            &t1.map
+        };
+        if let Some(df) = map_diff(&expect, map) {
+            return format!("FAIL chain {} after op {}: {}", v, i + 1, df);
+        }
+    }
+    format!("OK {}", expect.len())
 }
